@@ -148,6 +148,16 @@ impl BRC20ProgEngine {
 
         let mut block_number = self.get_next_block_height()?;
 
+        // The hashes of mined blocks are generated from their heights: if one of them already names
+        // a block, refuse before mining anything (finalise_block would refuse it half-way, after
+        // the blocks below it have been mined)
+        self.db.read_fn(|db| {
+            for number in block_number..block_number.saturating_add(block_count) {
+                db.require_block_does_not_exist(generate_block_hash(number), number)?;
+            }
+            Ok(())
+        })?;
+
         if self.get_block_by_number(0, false)?.is_none() {
             let genesis_hash = B256::ZERO;
             let genesis_timestamp = timestamp;
